@@ -17,6 +17,8 @@ results, lock = {}, threading.Lock()
 OUT = "/verif/seeded/CROSS_MATRIX.json"
 # stored changes that do not violate the property they were seeded against (DESIGN.md section 9 says why)
 NOT_OWN = {"C07-9": "outside the claim: needs a literal 0 directly in front of a part name (0Y, 0M), which the escaping rules do not cover",
+           "C20-13": "outside the claim: legacy week parts are not among the parts the property lists (C20 assumptions)",
+           "C17-13": "how the config file is read is C18's subject (a TOML number is not a version): caught by C18",
            "C20-11": "the seeding agent's own verdict; bytes outside the matched spans under the legacy engine: caught by C04 and C13",
            "C20-12": "the seeding agent's own verdict; symlinks / neighbour files under the legacy engine: caught by C04"}
 if os.path.exists(OUT) and "--resume" in sys.argv:
